@@ -183,7 +183,7 @@ def gen_program(rng, profile):
                 f['on'] = 'exit'
                 f['key'] = rng.randrange(nkeys)
             faults.append(f)
-    return {'world': 'cache', 'profile': profile, 'cache': cache, 'nkeys': nkeys,
+    return {'world': 'cache', 'profile': profile, 'cache': cache, 'nkeys': nkeys, 'form': 'deco' if rng.random() < 0.3 else 'direct',
             'threads': threads, 'invs': invs, 'faults': faults}
 
 
@@ -558,7 +558,10 @@ class CacheWorld:
         sch = self.sch
         self.arm_absolute()
         self.cache = self.make_cache()
-        self.cached = self.aa.threadsafe_async_cache(self.func, cache=self.cache)
+        if self.prog.get('form') == 'deco':
+            self.cached = self.aa.threadsafe_async_cache(cache=self.cache)(self.func)
+        else:
+            self.cached = self.aa.threadsafe_async_cache(self.func, cache=self.cache)
         ths = [sch.spawn(partial(self.worker, ti), f'w{ti}') for ti in range(len(self.ws))]
         sch.join(ths)
 
